@@ -1,0 +1,14 @@
+//go:build verif
+
+package session
+
+// VerifKeys returns the store key under which the given Manager keeps the session with the given external
+// (provider) session id, and the key of that session's refresh lock (verification hook).
+func VerifKeys(m Manager, externalSessionID string) (sessionKey string, lockKeyName string, ok bool) {
+	in, isManager := m.(*manager)
+	if !isManager {
+		return "", "", false
+	}
+	k := in.key(externalSessionID)
+	return k, lockKey(k), true
+}
